@@ -8,6 +8,10 @@ pub struct Gen<'a> {
     /// probability knobs
     pub comments: bool,
     pub docs: bool,
+    /// LuaJIT extension syntax (compound assignments, `continue`)
+    pub ext: bool,
+    /// Lua 5.3+ syntax (`//`, bitwise operators, `<const>`)
+    pub std53: bool,
     in_loop: usize,
 }
 
@@ -19,7 +23,7 @@ const TYPES: &[&str] = &["string", "number", "integer", "boolean", "table", "any
 
 impl<'a> Gen<'a> {
     pub fn new(rng: &'a mut Rng) -> Self {
-        Gen { rng, depth: 0, comments: true, docs: true, in_loop: 0 }
+        Gen { rng, depth: 0, comments: true, docs: true, ext: false, std53: true, in_loop: 0 }
     }
 
     fn name(&mut self) -> String {
@@ -46,7 +50,9 @@ impl<'a> Gen<'a> {
 
     fn string_lit(&mut self) -> String {
         let body = *self.rng.pick(&["", "abc", "hello world", "it's", "say \\\"hi\\\"", "a\\nb", "100%", "x\\\\y", "tab\\there"]);
-        match self.rng.below(6) {
+        match self.rng.below(8) {
+            6 => self.rng.pick(&["'C:\\\\dir\\\\\"'", "\"a\\\\\"", "'it\\'s'", "\"q\\\"q\"", "'\\\\\\''", "\"\\\\\\\\\"", "'say \"x\"'", "\"don't\""]).to_string(),
+            7 => "\"line one \\\n  line two\"".to_string(),
             0 => format!("'{}'", body.replace("it's", "its").replace("\\\"", "q")),
             1 => "[[long\nstring]]".to_string(),
             2 => "[==[ with ]] inside ]==]".to_string(),
@@ -133,18 +139,19 @@ impl<'a> Gen<'a> {
                 0 => self.number(),
                 1 => self.string_lit(),
                 2 => self.rng.pick(&["nil", "true", "false"]).to_string(),
-                3 | 4 => self.name(),
+                3 => self.name(),
+                4 => if self.rng.chance(1, 3) { self.tricky_expr() } else { self.name() },
                 5 => format!("{}.{}", self.name(), self.rng.pick(FIELDS)),
                 6 => {
                     let e = self.expr();
                     format!("{}{}", self.name(), self.bracket(e))
                 }
                 7 => {
-                    let op = *self.rng.pick(BINOPS);
+                    let op = if self.std53 { *self.rng.pick(BINOPS) } else { *self.rng.pick(&BINOPS[..15]) };
                     format!("{} {} {}", self.expr(), op, self.expr())
                 }
                 8 => {
-                    let op = *self.rng.pick(UNOPS);
+                    let op = if self.std53 { *self.rng.pick(UNOPS) } else { *self.rng.pick(&UNOPS[..3]) };
                     let e = self.expr();
                     // avoid `--` (comment) from a double minus
                     if op == "-" && e.starts_with('-') { format!("- ({e})") } else { format!("{op}{e}") }
@@ -256,7 +263,7 @@ impl<'a> Gen<'a> {
         let s = match k {
             0 | 1 => {
                 let n = self.name();
-                let attr = if self.rng.chance(1, 12) { " <const>" } else { "" };
+                let attr = if self.std53 && self.rng.chance(1, 12) { " <const>" } else { "" };
                 let doc = if self.docs && self.rng.chance(1, 5) { format!("{ind}---@type {}\n", self.doc_type(0)) } else { String::new() };
                 let w1 = if attr.is_empty() { self.ws() } else { " " };
                 format!("{doc}{ind}local {n}{attr}{w1}={}{}{semi}{trail}\n", self.ws(), self.expr())
@@ -386,6 +393,73 @@ impl<'a> Gen<'a> {
         }
         if self.rng.chance(1, 8) {
             s = s.replace('\n', "\r\n");
+        }
+        s
+    }
+}
+
+/// constructs added for specific defect classes (operator fusing, argument dropping, compound assignment,
+/// comments behind keyword statements, tag attributes, escapes before quotes, closures as later arguments)
+impl<'a> Gen<'a> {
+    fn tricky_expr(&mut self) -> String {
+        let (a, b) = (self.name(), self.name());
+        match self.rng.below(12) {
+            0 => format!("{a} - -{b}"),
+            1 => format!("{a} - - {b} - -1"),
+            2 => format!("1 .. {a}"),
+            3 => format!("{a} .. 2 .. {b}"),
+            4 => format!("{a} .. .5"),
+            5 => format!("1.5 .. {a} .. 0x10"),
+            6 => format!("{a}(\"a\", {b})"),
+            7 => format!("{a}({{ 1 }}, {b})"),
+            8 => format!("{a}({b}, function() {a}() {b}() end, function() {b}() {a}() end)"),
+            9 => format!("{a}({b}, {{ x = 1, y = 2 }}, {{ {a}, {b} }})"),
+            10 => format!("- -{a}"),
+            _ => format!("{a}[ - -1 ] .. {b}"),
+        }
+    }
+
+    fn tricky_stmt(&mut self, ind: &str) -> String {
+        let (a, b, c) = (self.name(), self.name(), self.name());
+        match self.rng.below(12) {
+            0 | 1 => {
+                // consecutive assignments with trailing comments behind code of different widths
+                format!("{ind}{a} = 1 -- one\n{ind}{b}.{} = {} -- two\n{ind}local {c} = \"s\" --three\n", self.rng.pick(FIELDS), self.tricky_expr())
+            }
+            2 if self.ext => format!("{ind}{a} = 1\n{ind}{b} += 2\n{ind}{c}.x ..= \"s\"\n{ind}{a} -= {b}\n"),
+            3 if self.ext => format!("{ind}for i = 1, 2 do\n{ind}  if {a} then continue -- skip\n{ind}  end\n{ind}  {b} *= 2\n{ind}end\n"),
+            4 => format!("{ind}while {a} do\n{ind}  if {b} then break -- out\n{ind}  end\n{ind}  break --done\n{ind}end\n"),
+            5 => format!("{ind}do\n{ind}  goto {a}_l -- jump\n{ind}  ::{a}_l:: -- target\n{ind}end\n"),
+            6 if self.docs => format!(
+                "{ind}---@class (exact) {} some text\n{ind}---@class (partial) Bcd: Base other\n{ind}---@field private x number the x\n{ind}---@field protected yy string\n{ind}local {a} = {{}}\n",
+                self.rng.pick(&["A", "Point"])
+            ),
+            7 if self.docs => format!("{ind}---@enum (key) Kind one\n{ind}---@enum Mode two\n{ind}local {a} = {{ a = 1 }}\n"),
+            8 => format!("{ind}local   {a}=2 {b}(\n{ind}  {c}\n{ind})\n"),
+            9 => format!("{ind}do\n{ind}  do\n{ind}      local {a} = \"first \\z\n{ind}           second\" .. \"x\\\n{ind}   y\"\n{ind}  end\n{ind}end\n"),
+            10 => format!("{ind}{a}({b}) {c} = {}\n", self.tricky_expr()),
+            _ => format!("{ind}local {a} = {}\n", self.tricky_expr()),
+        }
+    }
+
+    /// a program built mostly from the tricky constructs
+    pub fn tricky_program(&mut self, max_stmts: usize) -> String {
+        self.depth = 0;
+        let n = 1 + self.rng.below(max_stmts);
+        let mut s = String::new();
+        for _ in 0..n {
+            if self.rng.chance(2, 3) {
+                s.push_str(&self.tricky_stmt(""));
+            } else {
+                s.push_str(&self.stmt(""));
+            }
+        }
+        match self.rng.below(4) {
+            // trailing comment on the last statement, with and without a final newline
+            0 => s.push_str(&format!("{} = 1 -- last", self.name())),
+            1 => s.push_str(&format!("return {} -- last\n", self.name())),
+            2 => s.push_str(&format!("{}() --[[ end ]]", self.name())),
+            _ => {}
         }
         s
     }
